@@ -62,6 +62,11 @@ class EvalInterp(Interp):
             return False
         if name == 'type' and len(args) == 1 and isinstance(args[0], Sym) and args[0].kind in ('val', 'result') and len(args[0].args) > 2:
             return ('typeof', args[0].args[2])
+        if name == 'isinstance' and args and isinstance(args[0], Sym) and args[0].kind == 'hostfn':
+            # the scenario's host functions are plain host callables: instances of no value class and of no functools.partial
+            classes = self.class_names(e.args[1], args[1] if len(args) > 1 else None)
+            if all(c in ('functools.partial', 'partial', 'str', 'int', 'float', 'bool', 'list', 'dict', 'tuple', 'datetime.date', 'datetime.datetime', 'REGEX_TYPE', 're.Pattern') for c in classes):
+                return False
         return super().builtin_hook(name, args, e)
 
     def _boolean(self, args, node):
